@@ -148,6 +148,78 @@ def run_bounded(report, q, tier, reason, limit=None):
     return b
 
 
+def semantic_fallback(report, q):
+    """language equivalence (all texts, all contexts) of the pattern a constructor emits and of the chain its contract names,
+    over the pool of its argument kinds; differences are reported as violations with the distinguishing text"""
+    from . import lang, rx2smt as R
+    from .common import Report
+    b = native("run_module", {"module": "pvc.bex_contract", "func": "chain_pairs", "args": {"qualname": q, "limit": 400, "seed": SEED}},
+               timeout=1800)
+    pairs = [p for p in b["pairs"] if p["real"] != p["chain"]][:60]
+    out = {"compared": len(b["pairs"]), "violations": 0}
+    if not pairs:
+        return out
+    U = lang.universe_default()
+    trees = native("parse", {"patterns": [p["real"] for p in pairs] + [p["chain"] for p in pairs]})
+    jobs = []
+    for i, p in enumerate(pairs):
+        tr, tc = trees[i], trees[len(pairs) + i]
+        call = q.rsplit(".", 2)[-2] + "(" + ", ".join(f"{k}={v}" for k, v in p["args"].items() if k != "self") + ")"
+        if "tree" not in tr or "tree" not in tc:
+            if "tree" not in tr and "tree" in tc:
+                out["violations"] += 1
+                report.violation(f"{q}: emitted pattern does not compile", {"call": call, "pattern": p["real"]},
+                                 {"kind": "expr", "expr": call}, witness=call)
+            continue
+        try:
+            T = R.T_language(tc["tree"], U)
+        except R.Untranslatable:
+            continue
+        jobs.append(lang.Job(call, call, p["real"], tr["tree"], T, T, U))
+    tmp = Report(report.prop, report.tier, report.level)
+    lang.decide(tmp, jobs, timeout=30, samples_per_job=10)
+    for v in tmp.violations:
+        out["violations"] += 1
+        report.violations.append(v)
+    # equal languages do not settle match PRIORITY (greedy / lazy, order of alternatives): the two patterns are also run by
+    # `re` on texts sampled from the chain's language in sampled contexts, and on their repetitions
+    import random
+    rnd = random.Random(SEED + 4242)
+    items = []
+    for j in jobs:
+        if j.T is None:
+            continue
+        sets = set()
+        R.collect_sets(j.T, sets)
+        blocks, _ = R.minterms(sorted(sets), j.U)
+        reps = [chr(R.representative(b_)) for b_ in blocks]
+        seeds = lang.spec_samples(j, reps, rnd, n=16, maxlen=24) or [""]
+        texts = set(seeds)
+        for v in seeds:
+            for _ in range(3):
+                u = "".join(rnd.choice(reps) for _ in range(rnd.choice([0, 1, 2])))
+                w = "".join(rnd.choice(reps) for _ in range(rnd.choice([0, 1, 2])))
+                texts.add(u + v + w)
+            texts.add(v + v)
+            texts.add(v + " " + v)
+        spec_pattern = next(p["chain"] for p in pairs if p["real"] == j.pattern)
+        items.append((j.pattern, spec_pattern, sorted(texts)[:80]))
+    if items:
+        res = native("compare_matches", {"items": items})
+        for (p1, p2, _), d, j in zip(items, res, [j for j in jobs if j.T is not None]):
+            if d and "text" in d:
+                out["violations"] += 1
+                code = (f"import re\nt = {d['text']!r}\nobserved = [m.span() for m in re.finditer({p1!r}, t, re.M | re.S)]\n"
+                        f"expected = [m.span() for m in re.finditer({p2!r}, t, re.M | re.S)]\nviolated = observed != expected")
+                report.violation(f"{q}: emitted pattern matches differently from the chain: {j.expr}",
+                                 {"call": j.expr, "emitted": p1, "chain": p2, **d}, {"kind": "python", "code": code}, witness=j.expr)
+    report.bounded.append({"function": q, "contract": "language of the emitted pattern == language of the chain of operations named by the "
+                           "contract (the text-equality clause no longer verifies)", "bound": f"{len(b['pairs'])} distinct (emitted, chain) "
+                           f"pairs from the argument pools; {len(jobs)} with different texts decided for all texts",
+                           "evaluations": b["returned"], "distinct_nontrivial": len(jobs), "rule": "distinct (emitted, chain) pattern pairs"})
+    return out
+
+
 def load_lock():
     p = os.path.join(os.path.dirname(os.path.dirname(os.path.abspath(__file__))), "obligations.lock")
     if os.path.exists(p):
@@ -221,9 +293,22 @@ def run_functions(report, qualnames, tier="quick", bounded_limit=None, monitor=T
             if a not in report.assumptions:
                 report.assumptions.append(a)
         failed_groups = {}
+        sem = None
+        if c.get("semantic_fallback") and any(o["status"] != "discharged" and o.get("kind") == "ensures" for o in r["obligations"]):
+            # the post-condition "the emitted text is the text of this chain of operations" no longer verifies.  That clause is
+            # stronger than the property (equal texts => equal languages): before anything is reported, the languages of the
+            # emitted pattern and of the chain are compared, for all texts, on the pool of argument tuples.
+            sem = semantic_fallback(report, q)
+            for o in r["obligations"]:
+                if o["status"] != "discharged" and o.get("kind") == "ensures":
+                    o["status"] = "failed" if sem["violations"] else "unknown"
+                    if not sem["violations"]:
+                        o["kind"] = "refinement-lost"
+                    o["backend"] = (o.get("backend") or "") + f"; text differs from the stated chain; languages compared on {sem['compared']} argument tuples: " + \
+                        ("DIFFERENT" if sem["violations"] else "equal (the for-all statement is no longer proved)")
         for o in r["obligations"]:
             report.ob(o["name"], o["status"], o["backend"], o["time_s"], kind=o.get("kind", "vc"))
-            if o["status"] == "failed":
+            if o["status"] == "failed" and not (sem is not None and o.get("kind") in ("ensures", "refinement-lost")):
                 failed_groups.setdefault((o.get("kind"), o["name"].split("] ", 1)[-1]), []).append(o)
         for (kind, short), obs in failed_groups.items():
             key = f"{q}: {short}"
@@ -269,7 +354,7 @@ def run_functions(report, qualnames, tier="quick", bounded_limit=None, monitor=T
                                        "detail": o.get("detail"), "note": "the counter-model did not replay on the witness "
                                        "library; the obligation is reported as failed"},
                                  None, no_input=True)
-        unknown = [o for o in r["obligations"] if o["status"] == "unknown"]
+        unknown = [o for o in r["obligations"] if o["status"] == "unknown" and not (sem is not None and o.get("kind") in ("ensures", "refinement-lost"))]
         lk = lock.get(q)
         if unknown and lk and lk.get("all_discharged") and lk.get("source_hash") != r["source_hash"]:
             # regression: these obligations were discharged for the locked source of this function and are not for the
